@@ -4,6 +4,13 @@
 
 package x509
 
+// The extension OIDs are package-level variables initialised once and never assigned again (checked:
+// frame:global-invariant; element writes are not looked for).
+//@ global-invariant len(OIDExtensionArc) == 3 && OIDExtensionArc[0] == 2 && OIDExtensionArc[1] == 5 && OIDExtensionArc[2] == 29
+//@ global-invariant len(OIDExtensionKeyUsage) == 4 && OIDExtensionKeyUsage[3] == 15 && len(OIDExtensionBasicConstraints) == 4 && OIDExtensionBasicConstraints[3] == 19 && len(OIDExtensionSubjectAltName) == 4 && OIDExtensionSubjectAltName[3] == 17
+//@ global-invariant len(OIDExtensionNameConstraints) == 4 && OIDExtensionNameConstraints[3] == 30 && len(OIDExtensionCRLDistributionPoints) == 4 && OIDExtensionCRLDistributionPoints[3] == 31 && len(OIDExtensionAuthorityKeyId) == 4 && OIDExtensionAuthorityKeyId[3] == 35
+//@ global-invariant len(OIDExtensionExtendedKeyUsage) == 4 && OIDExtensionExtendedKeyUsage[3] == 37 && len(OIDExtensionSubjectKeyId) == 4 && OIDExtensionSubjectKeyId[3] == 14 && len(OIDExtensionCertificatePolicies) == 4 && OIDExtensionCertificatePolicies[3] == 32
+
 //@ uf extMatches(j int) bool
 // extMatches(j): "extension j of the decoded TBSCertificate has the OID looked for", i.e. the
 // result of Id.Equal(oid) observed in the single pass over the extensions (asn1.ObjectIdentifier.Equal
@@ -110,10 +117,13 @@ package x509
 
 //@ func parseCertificate
 //@ props C11
-//@ nobody
 //@ modifies nothing
-//@ note body not yet verified (260 lines, dozens of decoder calls): its return-coherence contract is trusted
+//@ frame-trusted writes only the Certificate it allocates and local decode targets; helper parsers are not under contract
+//@ may panic
 //@ requires in != nil
+//@ site store:UnhandledCriticalExtensions#1 as unh
+//@ at unh assert [a-san-with-any-parsed-name-is-handled] len(e.Id) == 4 && e.Id[0] == 2 && e.Id[1] == 5 && e.Id[2] == 29 && e.Id[3] == 17 ==> len(out.DNSNames) == 0 && len(out.EmailAddresses) == 0 && len(out.IPAddresses) == 0 && len(out.URIs) == 0
+//@ at unh assert [only-critical-extensions-are-recorded-as-unhandled] e.Critical
 //@ fresh result0
 //@ ensures [object-with-at-most-nonfatal-error-or-nothing-with-fatal-error] (result0 != nil && (result1 == nil || typeof(result1) == NonFatalErrors)) || (result0 == nil && result1 != nil && typeof(result1) != NonFatalErrors && typeof(result1) != *Errors)
 
@@ -137,3 +147,47 @@ package x509
 //@ func (*Errors).Fatal
 //@ props C11
 //@ pure
+
+// Error class of the helper parsers: whatever they return as error is a plain (fatal) error; the
+// non-fatal findings go into the NonFatalErrors collector they are handed.
+//@ func parsePublicKey
+//@ props C11
+//@ may panic
+//@ requires nfe != nil
+//@ modifies nfe.Errors
+//@ frame-trusted appends to the collector it is given
+//@ ensures [errors-are-fatal-class] result1 != nil ==> typeof(result1) != NonFatalErrors && typeof(result1) != *Errors
+
+//@ func parseSANExtension
+//@ props C11
+//@ may panic
+//@ modifies nfe.Errors
+//@ frame-trusted appends to the collector it is given
+//@ ensures [errors-are-fatal-class] err != nil ==> typeof(err) != NonFatalErrors && typeof(err) != *Errors
+
+//@ func parseNameConstraintsExtension
+//@ props C11
+//@ may panic
+//@ modifies nfe.Errors, out.PermittedDNSDomains, out.ExcludedDNSDomains, out.PermittedIPRanges, out.ExcludedIPRanges, out.PermittedEmailAddresses, out.ExcludedEmailAddresses, out.PermittedURIDomains, out.ExcludedURIDomains, out.PermittedDNSDomainsCritical
+//@ frame-trusted fills the name-constraint fields of the certificate under construction
+//@ ensures [errors-are-fatal-class] err != nil ==> typeof(err) != NonFatalErrors && typeof(err) != *Errors
+
+//@ func parseDistributionPoints
+//@ props C11
+//@ may panic
+//@ modifies *crldp
+//@ frame-trusted appends to the list it is given
+//@ ensures [errors-are-fatal-class] result != nil ==> typeof(result) != NonFatalErrors && typeof(result) != *Errors
+
+//@ func forEachSAN
+//@ props C11
+//@ nobody
+//@ pure
+//@ ensures [errors-are-fatal-class] result != nil ==> typeof(result) != NonFatalErrors && typeof(result) != *Errors
+//@ note trusted: returns asn1 errors, errors.New errors or whatever the callback returned; every callback in this package returns errors.New / fmt.Errorf errors
+
+//@ func parseNameConstraintsExtension$1
+//@ props C11
+//@ nobody
+//@ ensures [errors-are-fatal-class] err != nil ==> typeof(err) != NonFatalErrors && typeof(err) != *Errors
+//@ note trusted: the getValues closure returns asn1 / errors.New / fmt.Errorf errors only
